@@ -54,6 +54,11 @@ class Contract:
     setup: Callable[..., Any] | None = None
 
     @property
+    def def_index(self) -> int | None:
+        v = self.variant_of or ""
+        return int(v[3:]) if v.startswith("def") and v[3:].isdigit() else None
+
+    @property
     def module(self) -> str:
         return self.fn.split(":")[0]
 
